@@ -74,7 +74,9 @@ def census(ctx):
     ok_def = [d for d in definers if d[1] == "StructuredRecord" and d[2]]
     bad_def = [d for d in definers if not (d[1] == "StructuredRecord" and d[2])]
     out.append(Obligation("C06.F2 initial state: only StructuredRecord defines `_regex`, as None", [],
-                          tm.B(len(ok_def) == 1 and not bad_def), kind="F", text="class-level definitions: %s" % definers,
+                          # (a tree that keeps no `_regex` attribute at all -- nothing defines it, nothing stores to it -- has no such
+                          #  cache to initialise; whatever it keeps instead is the business of F4)
+                          tm.B((len(ok_def) == 1 and not bad_def) or (not definers and not writers)), kind="F", text="class-level definitions: %s" % definers,
                           meta=dict(function="census", clause="F2", detail=[list(d) for d in bad_def])))
     # F4: the typing path keeps no other state between calls (props/_shared.py)
     from props._shared import typing_state_census
